@@ -228,7 +228,7 @@ CHECKS["C09"] = dict(
 CHECKS["C01"] = dict(
     src="harness/C01_paths.cpp",
     also=["C01B"],
-    cases=dict(quick=3000, thorough=40000),
+    cases=dict(quick=4500, thorough=60000),
     rule="(filled below)",
     technique="property-based testing: generated planning problems per planner, independent path re-validation oracle, one forked process per case",
     level_text="Every shipped geometric / multilevel planner that can be instantiated generically (47 registry entries; companion C01B adds VFRRT, "
